@@ -155,6 +155,10 @@ def report(json_path, out_path):
         for cid, r in sorted(res[name].items()) if isinstance(res[name], dict) and 'error' not in res[name] else []:
             sig = (r['signatures'][0] if r.get('signatures') else '').replace('|', '/')[:110]
             lines.append(f"| {name} | {meta.get('property', '?')} | {summ} | {cid} | {r['verdict']} | {r['seconds']} | `{sig}` |")
+            if r.get('thorough'):
+                t = r['thorough']
+                tsig = (t['signatures'][0] if t.get('signatures') else '').replace('|', '/')[:110]
+                lines.append(f"| {name} | {meta.get('property', '?')} | (thorough tier) | {cid} | {t['verdict']} | {t['seconds']} | `{tsig}` |")
     det = sum(1 for n in res for c, r in (res[n].items() if 'error' not in res[n] else []) if r['verdict'] == 'DETECTED')
     tot = sum(1 for n in res for c, r in (res[n].items() if 'error' not in res[n] else []))
     lines += ['', f'{det} of {tot} (change, check) pairs detected.']
